@@ -36,16 +36,16 @@ RULE = (
     "checks termination within len(url) steps, embeddedness of every step, the fixed point and the iteration law. "
     "Grammar of the quantifier: 24 keys (12 redirect keys, upper/mixed case, look-alikes incl. the four non-ASCII code points "
     "re.I folds onto ASCII) x 16 placements (query first/middle/last, path, fragment, userinfo, host position, scheme-less, "
-    "bare, /url?q=, youtube redirect, ...) x 22 targets (absolute http(s), scheme-less, '/x', '/?u=/x', '//b.com/x', dot segments, "
-    ";params, brackets, stray %, non-ASCII, empty, self-referential) x 0-2 (quick) / 0-3 (thorough) extra levels of percent-encoding, "
+    "bare, /url?q=, youtube redirect, ...) x 31 targets (absolute http(s), scheme-less, '/x', '/?u=/x', '//b.com/x', dot segments, "
+    ";params, brackets, stray %, invalid UTF-8 escapes, TAB/CR/LF/NUL, IPv6 / IPvFuture / malformed bracketed hosts, non-ASCII, empty, self-referential) x 0-2 (quick) / 0-3 (thorough) extra levels of percent-encoding, "
     "chains nested 1-4 deep with matching levels of encoding, AMP/Marfeel cache hosts x 7 tails x case variants, then seeded random "
     "compositions; kind=urljoin cases compare the hand-written urljoin with CPython's on base x reference pairs. "
     "Non-trivial = the recursive result differs from the input, or a target was found and rejected by the length guard, "
     "or the url needs more than one step. Distinct = distinct url."
 )
 EXHAUSTIVE = {
-    "quick": "24 keys x 16 placements x 22 targets x 1 level of encoding (0 and 1 extra levels for the 12 genuine keys), 6 cache hosts x 7 tails x 2 case variants",
-    "thorough": "24 keys x 16 placements x 22 targets x 0-3 extra levels of percent-encoding, chains of depth 1-4 over 4 placements x 5 keys x 6 final targets, 6 cache hosts x 7 tails x 2 case variants",
+    "quick": "24 keys x 16 placements x 31 targets x 1 level of encoding (0 and 1 extra levels for the 12 genuine keys), 6 cache hosts x 7 tails x 2 case variants",
+    "thorough": "24 keys x 16 placements x 31 targets x 0-3 extra levels of percent-encoding, chains of depth 1-4 over 4 placements x 5 keys x 6 final targets, 6 cache hosts x 7 tails x 2 case variants",
 }
 TRUSTED = [
     "Lean 4 kernel; axioms of every listed theorem audited to be within {propext, Classical.choice, Quot.sound}",
@@ -144,6 +144,7 @@ PLACEMENTS = [
 TARGETS = [
     "http://b.com/x", "https://b.com", "https://b.com/p?k=v&w=1", "b.com/x", "/x", "/?u=/x", "//b.com/x", "http://", "https://",
     "/", "", "x", "/a/../b/./c/", "/a;p/b;q?r#s", "/../..", "//[b/", "/%", "/é/日", "http://é.fr/ü", "/x y", "/.//x", "ftp://b.com/",
+    "/a\tb\n", "//[::1]/p", "//[v1.a]:80/", "//[1::2::3]/", "/%E9%80", "/a\x00b", "//[2001:db8::1]:8080/p?q#f", " /x", "/\r",
 ]
 CACHE_HOSTS = ["cdn.ampproject.org/c/s/", "cdn.ampproject.org/v/", "a-com.cdn.ampproject.org/c/", "bc.marfeelcache.com/amp/", "bc.marfeel.com/",
                "x.ampproject.org/c/s/x.ampproject.org/c/s/"]
